@@ -33,12 +33,24 @@ func Verif_C19_api() {
 	l, err := NewLogger(cur, rule, compress)
 	verifAssert(err == nil && l != nil, "NewLogger succeeds")
 
+	reuse := verifChoose("callerReusesBuffer", 2) == 1
+	if reuse {
+		verifReach("buffer-reused")
+	}
 	var recs [][]byte
 	for j := 0; j < k; j++ {
 		n := 1 + verifChoose("len", 2)
 		rec := []byte(verifStringN("rec"+string(rune('1'+j)), n))
-		m, err := l.Write(rec)
+		// the caller's buffer: as fmt.Fprint or a pooled encoder do, the caller reuses it as soon as
+		// Write has returned (io.Writer: "Write must not retain p"), while the record is still queued
+		buf := append([]byte(nil), rec...)
+		m, err := l.Write(buf)
 		verifAssert(err == nil && m == len(rec), "Write accepts the record")
+		if reuse {
+			for i := range buf {
+				buf[i] = '#'
+			}
+		}
 		verifYield() // the writer goroutine takes the record from the queue
 		recs = append(recs, rec)
 	}
